@@ -120,6 +120,7 @@ func c06Sub(w *W) {
 		return s.Recv()
 	}
 	seq := 0
+	emptySent := false
 	published := map[string]bool{}
 	// doRecv performs one Recv on c and checks it against the model queue.
 	doRecv := func(c *c6Ctx) bool {
@@ -190,6 +191,13 @@ func c06Sub(w *W) {
 				seq++
 				t := c6Topics[w.Choose(simrt.SProg, len(c6Topics))]
 				body := append(append([]byte(nil), t...), fmt.Sprintf("#%d", seq)...)
+				if !emptySent && w.Choose(simrt.SProg, 12) == 0 {
+					// a publication with an empty body (once per run, so that it
+					// stays identifiable): it matches the empty subscription only
+					body = []byte{}
+					emptySent = true
+					w.Probe("empty-publication")
+				}
 				bodies = append(bodies, body)
 				published[string(body)] = true
 			}
